@@ -49,9 +49,9 @@ pub fn scenario(tier: &str) -> (Market, Bounds) {
         boundaries: vec!["start", "cron", "end"],
     };
     let b = if th {
-        Bounds { max_depth: 7, wall_cap_s: 1500.0, ..Default::default() }
+        Bounds { max_depth: 7, max_faults: 1, wall_cap_s: 1500.0, ..Default::default() }
     } else {
-        Bounds { max_depth: 4, wall_cap_s: 40.0, ..Default::default() }
+        Bounds { max_depth: 4, max_faults: 1, wall_cap_s: 40.0, ..Default::default() }
     };
     (Market { cfg }, b)
 }
@@ -62,6 +62,7 @@ pub fn run(tier: &str) -> ! {
     run.assumptions = vec![
         "mcvm mirrors the FVM message semantics; providers are real miner actors, activation/termination calls are impersonated from the miner's address".into(),
         "long time spans use sparse ticking (real cron at every scheduled epoch and at the target)".into(),
+        "fault class F1: the payout transfer of every successful withdrawal is failed once (the recipient rejects it); the withdrawal must then fail as a whole".into(),
         "amounts: price 10 or 0 atto/epoch, client collateral 7 atto, provider collateral 1 FIL; minimum deal duration".into(),
     ];
     run.add(mcx::explore(&scn, &b));
